@@ -512,6 +512,10 @@ which is what makes the product model of `C03_sessions_independent` the right on
 seen by the extractor: mutation through a method of a captured pointer.) -/
 theorem C03_gen_closure_no_shared_writes : Generated.C03.saslClosureWrites = some [] := by decide
 
+/-- nor is any variable of `newSASL` that is computed by a call when the feature value is
+built used inside the closures (nothing per-session is drawn once per feature value) -/
+theorem C03_gen_no_captured_call_results : Generated.C03.saslCapturedCallResults = some [] := by decide
+
 
 /-- **Sessions are independent.**  Whatever the schedule — any interleaving of the sessions'
 steps, any number of sessions — the state of session `i` is the state it reaches when run
